@@ -48,6 +48,52 @@ def Dec.same (a b : Dec) : Prop :=
   a.mant * 10 ^ (a.exp - min a.exp b.exp).toNat = b.mant * 10 ^ (b.exp - min a.exp b.exp).toNat
 instance (a b : Dec) : Decidable (Dec.same a b) := by unfold Dec.same; exact inferInstance
 
+/-! ## floats: the literal's decimal value rounds to the double the query held
+
+"The literal denotes the float" means: a correctly rounding compiler turns its exact decimal value
+into exactly the 64 bits the query held. Exact integer arithmetic, no floating point. -/
+
+/-- the double with these 64 bits as (sign, m, e), value `m · 2^e`; `none` for inf/nan -/
+def decodeBits (b : Nat) : Option (Bool × Nat × Int) :=
+  let neg := b / 2 ^ 63 % 2 == 1
+  let E : Nat := b / 2 ^ 52 % 2 ^ 11
+  let F : Nat := b % 2 ^ 52
+  if E == 2047 then none
+  else if E == 0 then some (neg, F, -1074)
+  else some (neg, 2 ^ 52 + F, (E : Int) - 1075)
+
+/-- compare `a · 2^a2 · 5^a5` with `b · 2^b2 · 5^b5` -/
+def cmpScaled (a : Nat) (a2 a5 : Int) (b : Nat) (b2 b5 : Int) : Ordering :=
+  let m2 := min a2 b2
+  let m5 := min a5 b5
+  compare (a * 2 ^ (a2 - m2).toNat * 5 ^ (a5 - m5).toNat) (b * 2 ^ (b2 - m2).toNat * 5 ^ (b5 - m5).toNat)
+
+/-- IEEE-754 binary64 round-to-nearest-even of the decimal `q` is the double with these bits. -/
+def roundsTo (q : Dec) (bits : Nat) : Bool :=
+  match decodeBits bits with
+  | none => false
+  | some (neg, m, e) =>
+    let even := m % 2 == 0
+    let up := cmpScaled q.mant q.exp q.exp (2 * m + 1) (e - 1) 0
+    let upOk := up == .lt || (up == .eq && even)
+    let lowOk :=
+      if m == 0 then true
+      else
+        let lo :=
+          if m == 2 ^ 52 && decide (e > -1074) then cmpScaled q.mant q.exp q.exp (4 * m - 1) (e - 2) 0
+          else cmpScaled q.mant q.exp q.exp (2 * m - 1) (e - 1) 0
+        lo == .gt || (lo == .eq && even)
+    (q.neg == neg) && upOk && lowOk
+
+/-- TRUSTED about CPython (checked by the harness on every sampled float, never proved): the text
+`repr` prints for a float rounds back to that float. -/
+def ReprFaithful : FloatRepr → Nat → Prop
+  | .finite neg ip fp ex, bits => roundsTo (floatValue neg ip fp ex) bits = true
+  | _, _ => True
+
+instance (r : FloatRepr) (bits : Nat) : Decidable (ReprFaithful r bits) := by
+  unfold ReprFaithful; split <;> exact inferInstance
+
 /-! ## one constant: text and recorded type -/
 
 /-- The emitted text is a C++ literal (or `-literal`) of the same value and kind as the constant,
@@ -59,11 +105,11 @@ def ConstOk (c : PyConst) (text : Str) (ty : CTy) : Prop :=
     match cppIntL text with
     | some (v, t) => v = n ∧ fitsTy t n = true ∧ fitsTy ty n = true
     | none => False
-  | .float (.finite neg ip fp ex) =>
+  | .float (.finite ..) bits =>
     match cppFloatL text with
-    | some (d, t) => Dec.same d (floatValue neg ip fp ex) ∧ t = .double ∧ ty = .double
+    | some (d, t) => roundsTo d bits = true ∧ t = .double ∧ ty = .double
     | none => False
-  | .float _ => False
+  | .float _ _ => False
   | .bool b => cppBoolL text = some b ∧ ty = .bool
   | .other _ => False
 
@@ -81,8 +127,8 @@ instance (c : PyConst) (text : Str) (ty : CTy) : Decidable (ConstOk c text ty) :
 def Representable : PyConst → Prop
   | .str _ => True
   | .int n => InInt64 n
-  | .float (.finite ..) => True
-  | .float _ => False
+  | .float (.finite ..) _ => True
+  | .float _ _ => False
   | .bool _ => True
   | .other _ => False
 
@@ -137,7 +183,7 @@ def constAt (c : PyConst) (text : Str) : Option Str :=
     | none => none
   | _ =>
     let p := numToken text
-    if decide (ConstOk c p.1 (match c with | .int _ => .int | .float _ => .double | _ => .bool)) then some p.2
+    if decide (ConstOk c p.1 (match c with | .int _ => .int | .float _ _ => .double | _ => .bool)) then some p.2
     else none
 
 /-- Maximal munch: a text starting with `-` (resp. `+`) directly after a `-` (resp. `+`) is not
@@ -240,42 +286,5 @@ def lineStrings : Nat → Str → Option (List Str)
       | some rest => lineStrings f rest
       | none => none
     else lineStrings f r
-
-/-! ## floats: the literal's decimal value rounds to the double the query held
-
-Not needed for the theorems (CPython's `repr` is trusted there); evaluated by the harness on every
-sampled float so that the trust is checked on the sample by exact integer arithmetic. -/
-
-/-- the double with these 64 bits as (sign, m, e), value `m · 2^e`; `none` for inf/nan -/
-def decodeBits (b : Nat) : Option (Bool × Nat × Int) :=
-  let neg := b / 2 ^ 63 % 2 == 1
-  let E : Nat := b / 2 ^ 52 % 2 ^ 11
-  let F : Nat := b % 2 ^ 52
-  if E == 2047 then none
-  else if E == 0 then some (neg, F, -1074)
-  else some (neg, 2 ^ 52 + F, (E : Int) - 1075)
-
-/-- compare `a · 2^a2 · 5^a5` with `b · 2^b2 · 5^b5` -/
-def cmpScaled (a : Nat) (a2 a5 : Int) (b : Nat) (b2 b5 : Int) : Ordering :=
-  let m2 := min a2 b2
-  let m5 := min a5 b5
-  compare (a * 2 ^ (a2 - m2).toNat * 5 ^ (a5 - m5).toNat) (b * 2 ^ (b2 - m2).toNat * 5 ^ (b5 - m5).toNat)
-
-/-- IEEE-754 binary64 round-to-nearest-even of the decimal `q` is the double with these bits. -/
-def roundsTo (q : Dec) (bits : Nat) : Bool :=
-  match decodeBits bits with
-  | none => false
-  | some (neg, m, e) =>
-    let even := m % 2 == 0
-    let up := cmpScaled q.mant q.exp q.exp (2 * m + 1) (e - 1) 0
-    let upOk := up == .lt || (up == .eq && even)
-    let lowOk :=
-      if m == 0 then true
-      else
-        let lo :=
-          if m == 2 ^ 52 && decide (e > -1074) then cmpScaled q.mant q.exp q.exp (4 * m - 1) (e - 2) 0
-          else cmpScaled q.mant q.exp q.exp (2 * m - 1) (e - 1) 0
-        lo == .gt || (lo == .eq && even)
-    (q.neg == neg) && upOk && lowOk
 
 end FaxVerif.C18
